@@ -38,4 +38,8 @@ func checkC01(c gen.ProgCase) Verdict {
 	return v
 }
 
-func TestC01(t *testing.T) { runPropCrashy(t, "C01", genC01, checkC01) }
+func TestC01(t *testing.T) {
+	fileRoute = true
+	defer func() { fileRoute = false }()
+	runPropCrashy(t, "C01", genC01, checkC01)
+}
